@@ -10,6 +10,7 @@ import (
 	"sync"
 
 	"github.com/TheManticoreProject/Manticore/network/smb/smb_v10/message"
+	"github.com/TheManticoreProject/Manticore/network/smb/smb_v10/message/commands"
 	"github.com/TheManticoreProject/Manticore/network/smb/smb_v10/message/commands/andx"
 	"github.com/TheManticoreProject/Manticore/network/smb/smb_v10/message/commands/codes"
 	ci "github.com/TheManticoreProject/Manticore/network/smb/smb_v10/message/commands/command_interface"
@@ -220,6 +221,39 @@ func checkHeader(h refHeader, variant int, tag string) {
 		if err4 != nil || !bytes.Equal(g4, want) {
 			r.Violation("header.setters:layout", fmt.Sprintf("a header assigned through SetFlags/SetFlags2/SetMID/SetTID/SetUID/SetPID encodes as %x, want %x", g4, want), cs)
 		}
+		// the setters again on the same header, after it held the complement of every value (a
+		// setter replaces, it does not merge with what was there)
+		lh4.SetFlags(^h.Flags)
+		lh4.SetFlags2(^h.Flags2)
+		lh4.SetMID(^h.MID)
+		lh4.SetPID(^pid)
+		lh4.SetFlags(h.Flags)
+		lh4.SetFlags2(h.Flags2)
+		lh4.SetMID(h.MID)
+		lh4.SetPID(pid)
+		g4, err4 = lh4.Marshal()
+		r.Eval(1)
+		if err4 != nil || !bytes.Equal(g4, want) {
+			r.Violation("header.setters:second-assignment", fmt.Sprintf("a header whose fields were set to the complements and then, through the same setters, to these values encodes as %x, want %x", g4, want), cs)
+		}
+		// a value copy of a decoded header keeps its value when the original decodes something else
+		{
+			orig := header.NewHeader()
+			if _, e := orig.Unmarshal(append([]byte{}, want...)); e == nil {
+				saved := *orig
+				other := append([]byte{}, want...)
+				for i := 14; i < 22; i++ {
+					other[i] ^= 0xFF // other security features
+				}
+				other[30] ^= 0x55
+				orig.Unmarshal(other)
+				gs, es := saved.Marshal()
+				r.Eval(1)
+				if es != nil || !bytes.Equal(gs, want) {
+					r.Violation("header.Unmarshal:value-copy-rewritten", fmt.Sprintf("saved := *h taken after decoding %x; after h decoded another header the copy encodes as %x (err %v)", want, gs, es), cs)
+				}
+			}
+		}
 		if lh2.GetMID() != h.MID || lh2.GetTID() != h.TID || lh2.GetUID() != h.UID {
 			r.Violation("header.getters:value", fmt.Sprintf("GetMID/GetTID/GetUID = %#x %#x %#x, decoded fields %#x %#x %#x", lh2.GetMID(), lh2.GetTID(), lh2.GetUID(), h.MID, h.TID, h.UID), cs)
 		}
@@ -265,6 +299,23 @@ func customFeatures() {
 		r.Eval(1)
 		if err == nil {
 			r.Violation("header.Marshal:custom-security-features:error-swallowed", fmt.Sprintf("the SecurityFeatures implementation failed to encode itself, Header.Marshal returned a header all the same: %x", got), cs)
+		}
+		// the same at message level: a header that cannot be encoded makes the message unencodable;
+		// so does an implementation that returns other than eight octets
+		for bi, bad := range []*stubFeatures{{err: fmt.Errorf("cannot sign")}, {out: []byte{1, 2, 3, 4, 5, 6, 7}}, {out: []byte{1, 2, 3, 4, 5, 6, 7, 8, 9}}, {out: nil}} {
+			m := message.NewMessage()
+			m.Header.SecurityFeatures = bad
+			m.AddCommand(commands.NewEchoRequest())
+			var wire []byte
+			var merr error
+			p, pv, st := mon.Guard(func() { wire, merr = m.Marshal() })
+			r.Eval(1)
+			switch {
+			case p:
+				r.Violation("message.Marshal:custom-security-features:panic", fmt.Sprintf("%v at %s", pv, mon.TopLibFrame(st)), cs)
+			case merr == nil && (len(wire) < 35 || !bytes.Equal(wire[:4], []byte{0xFF, 'S', 'M', 'B'}) || len(bad.out) != 8):
+				r.Violation("message.Marshal:custom-security-features:error-swallowed", fmt.Sprintf("the header's SecurityFeatures (case %d) cannot be encoded into eight octets; Message.Marshal returned %d octets %x and no error", bi, len(wire), wire), cs)
+			}
 		}
 		r.Nontrivial(fmt.Sprintf("customsec|%d", i))
 	}
